@@ -212,6 +212,7 @@ pub fn run(ctx: &mut Ctx) {
         server.extend(gen_reply(ctx, code));
         // truncation at every byte (round robin) and segmentation
         let trunc = if i % 3 == 0 { ctx.rng.below(server.len() as u64 + 1) as usize } else { server.len() };
+        let untruncated = trunc == server.len();
         server.truncate(trunc);
         let segs: Vec<Vec<u8>> = match i % 4 {
             0 => vec![server.clone()],
@@ -273,6 +274,15 @@ pub fn run(ctx: &mut Ctx) {
             };
             if let (Some(src_auth), Some(dest)) = (src_auth, dest) {
                 let extended = matches!(&ac.auth, VSocksAuth::FromSource { extended: true, .. });
+                // behind a complete reply the destination's first bytes follow at once: the tunnel's download direction starts
+                // with exactly these - nothing of the proxy's reply in front of them, none of them taken for the reply
+                let mut server = server.clone();
+                if untruncated {
+                    server.extend_from_slice(format!("DESTINATION-DATA-{}", i).as_bytes());
+                    if ctx.rng.chance(1, 3) {
+                        server.extend_from_slice(&[5, 0, 0, 1, 0, 0, 0, 0, 0, 0]);
+                    }
+                }
                 let server2 = server.clone();
                 let res = rt.block_on(async move {
                     use tokio::io::{AsyncReadExt, AsyncWriteExt};
@@ -318,7 +328,7 @@ pub fn run(ctx: &mut Ctx) {
                         sink
                     });
                     let core = make_socks_core(addr, extended);
-                    let r = tokio::time::timeout(std::time::Duration::from_secs(5), verif::forwarder_connect(&core, dest, src_auth)).await;
+                    let r = tokio::time::timeout(std::time::Duration::from_secs(8), verif::forwarder_connect_read(&core, dest, src_auth)).await;
                     // what the upstream was sent by the forwarder (its connection is closed by now)
                     let got = tokio::time::timeout(std::time::Duration::from_secs(3), srv).await.ok().and_then(|x| x.ok()).unwrap_or_default();
                     (r, got)
@@ -326,10 +336,10 @@ pub fn run(ctx: &mut Ctx) {
                 let (res, upstream_got) = res;
                 let ans = match res {
                     Err(_) => "stalled".to_string(),
-                    Ok(o) => {
+                    Ok((o, data)) => {
                         use verif::VConnectOutcome::*;
                         match o {
-                            Connected => "connected".into(),
+                            Connected => format!("connected {}", if data.is_empty() { "-".to_string() } else { hex(&data) }),
                             Io(m) if m.to_lowercase().contains("refused") => "refused".into(),
                             Io(_) => "io".into(),
                             Authentication => "authentication".into(),
@@ -362,7 +372,7 @@ pub fn run(ctx: &mut Ctx) {
                     _ => ac.tok.clone(),
                 };
                 ctx.emit(&format!("c15 fwd {} {} {}", tok2, req_tok, hex(&server)), &format!("{} | {}", hex(&upstream_got), ans));
-                ctx.stat(&format!("fwd_{}", ans));
+                ctx.stat(&format!("fwd_{}", ans.split(' ').next().unwrap_or("")));
             }
         }
     }
